@@ -717,7 +717,7 @@ fn rt_large(t: &mut Tape<'_>, o: &mut Obs) -> R {
 /// (`cautious_capacity`: at most 1 MiB / size_of::<T>() elements are reserved up front, the rest grows while reading):
 /// cap - 1, cap, cap + 1, cap + 2..3000 elements.
 fn rt_cap(t: &mut Tape<'_>, o: &mut Obs) -> R {
-    let k = t.idx(7);
+    let k = t.idx(11);
     let (d, dl): (i64, &'static str) = match t.weighted(&[2, 2, 2, 3]) {
         0 => (-1, "len=prealloc-cap-1"),
         1 => (0, "len=prealloc-cap"),
@@ -738,7 +738,12 @@ fn rt_cap(t: &mut Tape<'_>, o: &mut Obs) -> R {
         3 => go!(Vec<(u8, bool)>, 1usize << 19),
         4 => go!(Vec<bool>, 1usize << 20),
         5 => go!(String, 1usize << 20),
-        _ => go!(BigUint, 1usize << 20),
+        6 => go!(BigUint, 1usize << 20),
+        // zero-sized elements: the reservation is capped at 2^20 elements, nothing is read per element
+        7 => go!(Vec<()>, 1usize << 20),
+        8 => go!(VecDeque<PhantomData<u8>>, 1usize << 20),
+        9 => go!(Vec<[u8; 0]>, 1usize << 20),
+        _ => go!(Vec<Unit>, 1usize << 20),
     }
 }
 
@@ -794,7 +799,7 @@ fn relations(tier: Tier) -> Vec<Rel> {
         Rel::new("roundtrip/containers-of-structs+points", q(600), 1400, rt_derive2),
         Rel::new("roundtrip/pinned-wrappers+serde_json", q(1200), 800, rt_pinned),
         Rel::new("roundtrip/large-values", q(160), 400, rt_large).shrink_iters(300),
-        Rel::new("roundtrip/len-at-prealloc-cap", q(28), 16, rt_cap).shrink_iters(20),
+        Rel::new("roundtrip/len-at-prealloc-cap", q(66), 16, rt_cap).shrink_iters(20),
         Rel::new("roundtrip/slices", q(1200), 600, rt_slices),
         Rel::new("validity/structs+points", q(1200), 700, validity_rel),
         Rel::new("validity/containers-of-structs+points", q(600), 700, validity_rel2),
